@@ -398,6 +398,14 @@ def run(ctx, prog):
     pn_ret = flow.render(flow.Origin(pn).of_local(0))
     ctx.inst('C11.R1', 'number parsing', 'both sides use str::parse::<f64>', same_parser and (bool(pn.calls_to('core::result::Result::ok')) or bool(re.search(r'Option::Some\{str::parse\(arg:\w+\)@Ok→Ok\.0\}', pn_ret))),
              'parse_indexable_numeric = str::parse::<f64>().ok(); matches_range parses value and bound with parse::<f64>')
+    # "numeric" means the same on both sides: the reference calls a value numeric exactly when parse::<f64> succeeds, so the index parser may answer None only when
+    # that parse failed — every return of parse_indexable_numeric lies behind the parse call (no early None for a class of values: a length cap, a prefix test, …)
+    pcalls = [c.bb for c in pn.calls if c.callee and c.callee.endswith('::parse') and 'f64' in ' '.join(c.ga)]
+    r_np = pn.reach([0], avoid_blocks=pcalls)
+    early = [x for x in pn.return_blocks() if x in r_np]
+    ctx.inst('C11.R1', 'number parsing', 'the index parser decides by the parse alone: no return before the parse', bool(pcalls) and not early,
+             'a return of parse_indexable_numeric is reachable without calling parse::<f64> (a value the reference treats as a number is filed as a string only)' if early
+             else 'every return is behind parse::<f64>')
     # ... and both sides hand the parser the SAME string: the stored value / the bound as it is.  A string transformation in front of the parse on one side only
     # (trim, case folding, a slice) makes a value numeric for the index and a string for the reference, or the other way round
     def _str_transforms(b_, e_, depth=0):
